@@ -36,6 +36,9 @@ def isPrint (r : Nat) : Bool :=
   if r < 0x80 then 0x20 ≤ r && r ≤ 0x7E
   else Gen.QuoteTab.printRanges.any fun p => p.1 ≤ r && r ≤ p.2
 
+/-- no NUL byte (what an operating system can pass as an argument) -/
+def NulFree (s : Bytes) : Prop := ∀ b ∈ s, b ≠ 0
+
 /-- byte offset of the first NUL -/
 def nulOffset : Bytes → Option Nat
   | [] => none
